@@ -15,9 +15,13 @@
 #include <util/check.h>
 #include "sigref.h"
 
-#ifndef SSLEN   // scriptSig length
+// scriptSig template: -DSIG=b0,b1,... with S for a symbolic byte, e.g. SIG=0x02,S,S (one push of two symbolic bytes); -DSSLEN=its length.
+// Opcode positions that determine push sizes are concrete (shape), everything else symbolic.
+#ifndef SSLEN
 #define SSLEN 3
+#define SIG S,S,S
 #endif
+#define S nondet_u8()
 #ifndef PKLEN   // length of the tx's own output script
 #define PKLEN 2
 #endif
@@ -59,7 +63,18 @@ extern "C" void h_sigcost()
     { uint256 u; u.data()[0] = 1; m.vin[0].prevout.hash = Txid::FromUint256(u); m.vin[0].prevout.n = nondet_u32(); }
 #endif
     m.vin[0].scriptSig.resize(SSLEN);
-    for (int k = 0; k < SSLEN; k++) { sb[k] = nondet_u8(); m.vin[0].scriptSig[k] = sb[k]; }
+#if SSLEN > 0
+#ifdef WRAP     // P2SH-wrapped witness program shape: one push of SSLEN-1 bytes; the redeem script's version and length bytes are symbolic
+#ifdef WRAPPRE  // same, preceded by a non-push opcode (OP_NOP): the scriptSig is not push-only, so neither BIP16 nor BIP141 look at the pushed program
+    for (int k = 0; k < SSLEN; k++) sb[k] = k == 0 ? 0x61 : k == 1 ? (uint8_t)(SSLEN - 2) : (k == 2 || k == 3) ? nondet_u8() : 0x4b;
+#else
+    for (int k = 0; k < SSLEN; k++) sb[k] = k == 0 ? (uint8_t)(SSLEN - 1) : (k == 1 || k == 2) ? nondet_u8() : 0x4b;
+#endif
+#else
+    { const uint8_t init[SSLEN] = {SIG}; for (int k = 0; k < SSLEN; k++) sb[k] = init[k]; }
+#endif
+    for (int k = 0; k < SSLEN; k++) m.vin[0].scriptSig[k] = sb[k];
+#endif
     m.vout[0].scriptPubKey.resize(PKLEN);
     for (int k = 0; k < PKLEN; k++) { pb[k] = nondet_u8(); m.vout[0].scriptPubKey[k] = pb[k]; }
 #if WN > 0
@@ -73,7 +88,7 @@ extern "C" void h_sigcost()
 #if SPK == 0
         cb[k] = nondet_u8();
 #elif SPK == 1
-        cb[k] = (k == 0 || k == 1 || k == 22) ? nondet_u8() : 0x77;
+        cb[k] = (k == 0 || k == 1 || k == 22) ? nondet_u8() : 0x4b;   // filler 0x4b = push of 75 bytes: a (never taken) legacy scan of this script stops at once
 #else
         cb[k] = (k == 0 || k == 1) ? nondet_u8() : 0x77;
 #endif
@@ -122,13 +137,17 @@ extern "C" void h_sigcost()
 
     VWITNESS(cost == 4 * (int64_t)legacy && legacy > 0, "pure legacy cost");
 #ifndef COINBASE
-#if SPK == 1 && SSLEN >= 2
-    VWITNESS(cost == 4 && legacy == 0, "single CHECKSIG inside the redeem script costs 4");
-    VWITNESS(cost == 0 && is_p2sh && (fl & F_P2SH) && !ss.push_only, "non-push-only scriptSig: redeem script not counted");
-    VWITNESS(cost == 0 && !is_p2sh && cb[0] == 0xa9 && cb[1] == 0x14 && have_redeem && rlen == 1 && red[0] == 0xac, "23-byte script that is not exactly the P2SH template is not P2SH");
+#if SPK == 1 && defined(W_REDEEM)      // shapes ending in a data push of >= 2 symbolic bytes
+    VWITNESS(cost == 4 && legacy == 0 && have_redeem, "single CHECKSIG inside the redeem script costs 4");
+    VWITNESS(cost == 8 && legacy == 0 && red[rlen - 1] == 0xae, "OP_2 CHECKMULTISIG redeem script counts accurately");
+    VWITNESS(cost == 0 && !is_p2sh && cb[0] == 0xa9 && cb[1] == 0x14 && have_redeem && red[0] == 0xac, "23-byte script that is not exactly the P2SH template is not P2SH");
+    VWITNESS(cost == 0 && is_p2sh && !(fl & F_P2SH) && red[0] == 0xac, "P2SH flag off: redeem script not counted");
 #endif
-#if SPK == 1 && SSLEN >= 3
-    VWITNESS(cost == 8 && legacy == 0 && rlen == 2 && red[1] == 0xae, "OP_2 CHECKMULTISIG redeem script counts accurately");
+#if SPK == 1 && defined(W_TRAILOP)     // shape: data push followed by a concrete non-push opcode (CHECKSIG)
+    VWITNESS(cost == 4 && legacy == 1 && is_p2sh && (fl & F_P2SH) && sb[1] == 0xac, "non-push-only scriptSig: redeem script not counted");
+#endif
+#if SPK == 1 && defined(W_TRAILN)      // shape: data push followed by OP_1
+    VWITNESS(cost == 0 && is_p2sh && (fl & F_P2SH) && sb[1] == 0xac && have_redeem && !ss.last_is_data, "last item from OP_n: empty redeem script");
 #endif
 #if SPK == 2
     VWITNESS(cost == 4 * (int64_t)legacy + 1, "P2WPKH spend costs 1");
@@ -141,8 +160,16 @@ extern "C" void h_sigcost()
 #if SPK == 3 && WN == 0
     VWITNESS(cost == 0 && (fl & F_WIT) && cb[0] == 0 && cb[1] == 32, "P2WSH with empty witness costs nothing");
 #endif
-#if SPK == 1 && SSLEN == 23
+#if SPK == 1 && defined(WRAPPRE)
+    VWITNESS(cost == 0 && is_p2sh && (fl & F_WIT) && sb[2] == 0 && sb[3] == 20 && !ss.push_only, "non-push-only scriptSig: wrapped P2WPKH program not counted");
+#endif
+#if SPK == 1 && SSLEN == 23 && defined(WRAP) && !defined(WRAPPRE)
     VWITNESS(cost == 1 && legacy == 0, "P2SH-wrapped P2WPKH costs 1");
+    VWITNESS(cost == 0 && is_p2sh && (fl & F_WIT) && sb[1] == 0x51 && sb[2] == 20, "P2SH-wrapped v1 program costs nothing");
+    VWITNESS(cost == 0 && !is_p2sh && (fl & F_WIT) && sb[1] == 0 && sb[2] == 20, "not P2SH: wrapped program ignored");
+#endif
+#if SPK == 1 && SSLEN == 35 && defined(WRAP) && WN > 0 && WLEN >= 2
+    VWITNESS(cost == 2 && legacy == 0, "P2SH-wrapped P2WSH: OP_2 CHECKMULTISIG witness script costs 2");
 #endif
 #else
     VWITNESS(tx.IsCoinBase(), "coinbase shape");
